@@ -623,6 +623,18 @@ def run(ctx):
                              '%s refers to yydmap but is not part of the table loader [variant %s]' % (fn.name, v.name), variant=v.describe())
                 elif refs:
                     rep.ok('C12.R1', '%s %s: yydmap user is a loader function' % (v.name, fn.name))
+            # R7: the entry points that write the shared tables (load, destroy) are the user's one-time steps; no function of
+            # the per-instance API may call them, or destroying/creating one instance changes the tables under every other one
+            for fn in mod.functions.values():
+                if norm(fn.name) in LOADER: continue
+                for c in fn.ins:
+                    if c.op in ('call', 'invoke') and isinstance(c.callee, str) and norm(c.callee) in ('yytables_fload', 'yytables_destroy'):
+                        rep.fail('C12.R7', 'C12.R7:%s:%s:calls-%s' % (skel(v), norm(fn.name), norm(c.callee)), where(c),
+                                 '%s, a function of the per-instance API, calls %s(): the loaded tables are shared by all instances of the scanner, so '
+                                 'this frees or replaces them under every other live instance [variant %s]' % (fn.name, norm(c.callee), v.name), variant=v.describe())
+                        break
+                else:
+                    if fn.blocks: rep.ok('C12.R7', '%s %s: does not call the shared-table load/destroy entry points' % (v.name, fn.name))
         ro = readonly_globals(mod) - set(allow)
         tot['glob'] += r1_globals(rep, v, mod, allow, ro)
         a, b = r1r2_functions(rep, v, prog, mod, allow_mut, loader_ok, {}, ro)
@@ -643,6 +655,7 @@ def run(ctx):
             n5 += c13.r8(rep, v, prog, mod, c13.Flow(prog, mod), cinit, rule='C12.R5')
     rep.setcount('constructor_member_checks', n5)
     rep.setcount('instance_allocators_checked', tot.get('init', 0))
+    rep.floor('C12.R7', 100, 'functions of the tables-file variants outside the loader')
     rep.floor('C12.R6', 85, 'yylex_init and yylex_init_extra in every reentrant-C variant, yylex_init in every c99 / go variant')
     rep.floor('C12.R5', 280, 'measured 316 (quick): 10-16 members x 2 constructors in each C++ variant')
     rep.require(ntab >= 2, 'fewer than 2 reentrant --tables-file variants analysed')
